@@ -356,3 +356,119 @@ Section FP.
     - pose proof (calc_sub_ok height' (inj raw)) as Hok. rewrite E2, E3 in Hok. apply Hok; auto; lia.
   Qed.
 End FP.
+
+(* ================= the flat variant of the model is the model ================= *)
+From LE Require Import SMT.LayeredProofs.
+Section FlatEq.
+  Context {V Hsh : Type}.
+  Variable hempty : Hsh.
+  Variable hleaf : key -> V -> Hsh.
+  Variable hbranch : Hsh -> Hsh -> Hsh.
+  Variable heqb : Hsh -> Hsh -> bool.
+  Variable h : nat.
+  Notation ST := (@ST V Hsh).
+  Notation snode := (@snode V Hsh).
+  Notation store := (@store V Hsh).
+  Notation op := (@op V).
+
+  Lemma parse_depth : forall fuel d (l : @flat V Hsh) st rest, parse fuel d l = Some (st, rest) -> sdepth st < fuel.
+  Proof.
+    induction fuel as [|f IH]; intros d l st rest Hp; cbn [parse] in Hp; [discriminate|].
+    destruct l as [|[d' x] l']; [discriminate|]. destruct (Nat.eqb d' d).
+    - inversion Hp; subst. cbn. lia.
+    - destruct (parse f (S d) ((d', x) :: l')) as [[a r1]|] eqn:Ea; [|discriminate].
+      destruct (parse f (S d) r1) as [[b r2]|] eqn:Eb; [|discriminate]. inversion Hp; subst.
+      apply IH in Ea. apply IH in Eb. cbn [sdepth]. lia.
+  Qed.
+  Lemma get_subtree_depth : forall (s : store) r st, get_subtree hempty heqb h s r = Some st -> sdepth st <= h.
+  Proof.
+    intros s r st Hg. unfold get_subtree in Hg. destruct (heqb r hempty); [inversion Hg; cbn; lia|].
+    destruct (sget heqb r s) as [c|]; [|discriminate]. unfold decode in Hg.
+    destruct (parse (S h) 0 c) as [[st' rest]|] eqn:Ep; [|discriminate]. destruct rest; [|discriminate].
+    inversion Hg; subst. apply parse_depth in Ep. lia.
+  Qed.
+  Lemma scollapse_depth : forall l r : ST, sdepth (scollapse l r) <= S (Nat.max (sdepth l) (sdepth r)).
+  Proof.
+    intros l r. destruct l as [[| |]|]; destruct r as [[| |]|]; cbn [scollapse sdepth]; lia.
+  Qed.
+  Lemma norm_depth : forall st : ST, sdepth (norm st) <= sdepth st.
+  Proof.
+    induction st as [x|l IHl r IHr]; cbn [norm sdepth]; [lia|].
+    pose proof (scollapse_depth (norm l) (norm r)). lia.
+  Qed.
+
+  Lemma upd_ext : forall (d1 d2 : store -> nat -> snode -> list op -> option (store * snode)),
+    (forall s i x ops, d1 s i x ops = d2 s i x ops) ->
+    forall g i st ops s, upd d1 g i st ops s = upd d2 g i st ops s.
+  Proof.
+    intros d1 d2 Hd. induction g as [|g' IH]; intros i st ops s; destruct ops as [|o ops']; try reflexivity.
+    - destruct st as [x|l r]; cbn [upd]; [|reflexivity]. destruct (direct x (o :: ops')); [reflexivity|]. rewrite Hd. reflexivity.
+    - destruct st as [x|l r]; cbn [upd].
+      + destruct (direct x (o :: ops')); [reflexivity|]. destruct (place i x) as [[xl xr]|]; [|reflexivity].
+        rewrite IH. destruct (upd d2 g' (S i) (SN xl) (opsb false i (o :: ops')) s) as [[s1 l']|]; [|reflexivity].
+        rewrite IH. reflexivity.
+      + rewrite IH. destruct (upd d2 g' (S i) l (opsb false i (o :: ops')) s) as [[s1 l']|]; [|reflexivity].
+        rewrite IH. reflexivity.
+  Qed.
+  Lemma upd_depth : forall (d : store -> nat -> snode -> list op -> option (store * snode)) g i st ops s s' raw,
+    sdepth st <= g -> upd d g i st ops s = Some (s', raw) -> sdepth raw <= g.
+  Proof.
+    intros d. induction g as [|g' IH]; intros i st ops s s' raw Hd Hu; destruct ops as [|o ops'].
+    - cbn in Hu. inversion Hu; subst. exact Hd.
+    - destruct st as [x|l r]; cbn [upd] in Hu; [|discriminate].
+      destruct (direct x (o :: ops')); [inversion Hu; cbn; lia|].
+      destruct (d s i x (o :: ops')) as [[s1 x']|]; [|discriminate]. inversion Hu; cbn; lia.
+    - cbn in Hu. inversion Hu; subst. exact Hd.
+    - assert (Hboth : forall l r, sdepth l <= g' -> sdepth r <= g' ->
+                match upd d g' (S i) l (opsb false i (o :: ops')) s with
+                | None => None
+                | Some (s1, l') => match upd d g' (S i) r (opsb true i (o :: ops')) s1 with
+                                   | None => None | Some (s2, r') => Some (s2, SB l' r') end
+                end = Some (s', raw) -> sdepth raw <= S g').
+      { intros l r Hl Hr Hb. destruct (upd d g' (S i) l (opsb false i (o :: ops')) s) as [[s1 l']|] eqn:E1; [|discriminate].
+        destruct (upd d g' (S i) r (opsb true i (o :: ops')) s1) as [[s2 r']|] eqn:E2; [|discriminate].
+        inversion Hb; subst. apply IH in E1; auto. apply IH in E2; auto. cbn [sdepth]. lia. }
+      destruct st as [x|l r]; cbn [upd] in Hu.
+      + destruct (direct x (o :: ops')); [inversion Hu; cbn; lia|].
+        destruct (place i x) as [[xl xr]|]; [|discriminate]. apply (Hboth (SN xl) (SN xr)); cbn; auto; lia.
+      + cbn [sdepth] in Hd. apply (Hboth l r); auto; lia.
+  Qed.
+
+  Lemma descend_with_ext : forall (sub1 sub2 : store -> nat -> ST -> list op -> option (store * ST)),
+    (forall s i cur ops, sdepth cur <= h -> sub1 s i cur ops = sub2 s i cur ops) ->
+    forall s i x ops, descend_with hempty hleaf hbranch heqb h sub1 s i x ops =
+                      descend_with hempty hleaf hbranch heqb h sub2 s i x ops.
+  Proof.
+    intros sub1 sub2 Hsub s i x ops. unfold descend_with. destruct x as [|k v|r].
+    - rewrite Hsub by (cbn; lia). reflexivity.
+    - rewrite Hsub by (cbn; lia). reflexivity.
+    - destruct (get_subtree hempty heqb h s r) as [lower|] eqn:Eg; [|reflexivity].
+      rewrite Hsub by (eapply get_subtree_depth; eauto). reflexivity.
+  Qed.
+
+  Theorem upd_sub_flat_eq : forall lv (s : store) i cur ops, sdepth cur <= h ->
+    upd_sub_flat hempty hleaf hbranch heqb h lv s i cur ops = upd_sub hempty hleaf hbranch heqb h lv s i cur ops.
+  Proof.
+    induction lv as [|lv' IH]; intros s i cur ops Hd; destruct ops as [|o ops']; try reflexivity.
+    cbn [upd_sub_flat upd_sub].
+    rewrite (upd_ext _ _ (descend_with_ext _ _ IH)).
+    destruct (upd (descend_with hempty hleaf hbranch heqb h (upd_sub hempty hleaf hbranch heqb h lv')) h i cur (o :: ops') s)
+      as [[s1 raw]|] eqn:Eu; [|reflexivity].
+    apply upd_depth in Eu; auto.
+    rewrite (calc_subtree_norm hempty hleaf raw). rewrite tree_hasher_shash.
+    unfold decode. rewrite <- (app_nil_r (flatten 0 (norm raw))).
+    rewrite (parse_flatten 1 Nat.lt_0_1); [reflexivity|]. pose proof (norm_depth raw). lia.
+  Qed.
+
+  (* trie.Update with the flat calculateSubTree / treeHasher loops IS the layered model, on every store and batch *)
+  Theorem layered_update_flat_eq : forall lv sr ops,
+    layered_update_flat hempty hleaf hbranch heqb h lv sr ops = layered_update hempty hleaf hbranch heqb h lv sr ops.
+  Proof.
+    intros lv [s root] ops. destruct ops as [|o ops']; [reflexivity|].
+    unfold layered_update_flat, layered_update, layered_open. cbn [fst snd].
+    destruct (get_subtree hempty heqb h s root) as [cur|] eqn:Eg; [|reflexivity].
+    rewrite upd_sub_flat_eq by (eapply get_subtree_depth; eauto).
+    destruct (upd_sub hempty hleaf hbranch heqb h lv s 0 cur (dedupe [] (o :: ops'))) as [[s' new]|]; [|reflexivity].
+    rewrite tree_hasher_shash. reflexivity.
+  Qed.
+End FlatEq.
